@@ -74,7 +74,7 @@ def cases(draw, max_ops):
     one = st.one_of(
         st.tuples(st.just("insert"), pts, st.integers(0, 3), st.booleans(), st.sampled_from(["db", "db_meas", "handle"]), st.booleans()).map(list),
         st.tuples(st.just("insert"), pts, st.integers(0, 3), st.booleans(), st.sampled_from(["db", "db_meas", "handle"]), st.booleans()).map(list),
-        st.tuples(st.just("insert_multiple"), st.lists(pts, max_size=4), st.integers(0, 3), st.sampled_from(["inorder", "asis"]), st.just("db"), st.none(), st.just("m1")).map(list),
+        st.tuples(st.just("insert_multiple"), st.lists(pts, max_size=4), st.integers(0, 3), st.sampled_from(["inorder", "asis", "asis_recycled", "asis_reading"]), st.just("db"), st.none(), st.just("m1")).map(list),
         gen_ops.op_remove_hit(), gen_ops.op_remove_hit(), gen_ops.op_update_hit(), gen_ops.op_update_hit(), gen_ops.op_update(), gen_ops.op_remove(),
         st.tuples(st.just("insert_reuse"), pts, st.booleans()).map(list),
         gen_ops.op_drop(), gen_ops.op_remove_all(), gen_ops.op_reindex(), gen_ops.op_reopen(), gen_ops.op_reopen(),
